@@ -27,6 +27,7 @@ pub fn dispatch(
         "pairs" => pairs(args, thorough, total, bounds),
         "equal" => equal(args, thorough, total, bounds),
         "wrong-needle" => wrong_needle(args, thorough, seed, total, bounds),
+        "memchr-alloc" => memchr_alloc(args, thorough, total, bounds),
         _ => return false,
     }
     true
@@ -664,4 +665,88 @@ fn wrong_needle(args: &Args, thorough: bool, seed: u64, total: &mut Report, boun
     total.merge(rep);
     bounds.insert("wrong-needle".into(), json!({"construction_needles": built_needles.iter().map(|n| show(n)).collect::<Vec<_>>(), "haystack_len": [0, maxh], "subjects": ["twoway fwd/rev", "rabinkarp fwd/rev", "sse2/avx2 packedpair find"]}));
     let _ = (oracle::find_sub, spaces::PADS, replay_argv, Sem::Fwd);
+}
+
+/// C17 for the memchr family: one-shot functions and iterators driven to
+/// exhaustion (from both ends), and count(), with the allocation probe armed
+/// around each call.
+fn memchr_alloc(args: &Args, thorough: bool, total: &mut Report, bounds: &mut Map<String, Value>) {
+    let _ = args;
+    let lmax = if thorough { 14 } else { 12 };
+    let mut lens: Vec<usize> = (0..=lmax).collect();
+    lens.extend_from_slice(&[31, 32, 33, 64, 100, 257, 1000]);
+    let rep = par::run_items(&lens, |_, &len, r| {
+        let mut ar = Arena::plain(2);
+        let (n1, n2, n3, other) = (0x00u8, 0x80u8, 0xffu8, 0x01u8);
+        let n = if len <= lmax { enumr::pow(2, len as u32) } else { (len as u64 + 2).min(64) };
+        let mut data = vec![other; len];
+        for idx in 0..n {
+            if len <= lmax {
+                for i in 0..len {
+                    data[i] = if idx >> i & 1 == 1 { [n1, n2, n3][i % 3] } else { other };
+                }
+            } else {
+                for (i, b) in data.iter_mut().enumerate() {
+                    // idx 0: no match; otherwise a match every idx bytes
+                    *b = if idx > 0 && i as u64 % idx == 0 { [n1, n2, n3][i % 3] } else { other };
+                }
+            }
+            let hay = ar.place_fill(64 + (idx as usize % 16), &data, n1, n1, 32);
+            r.states += 1;
+            let a0 = crate::alloc::allocs();
+            let res = guarded(|| {
+                let mut acc = 0usize;
+                acc += memchr::memchr(n1, hay).unwrap_or(0);
+                acc += memchr::memchr2(n1, n2, hay).unwrap_or(0);
+                acc += memchr::memchr3(n1, n2, n3, hay).unwrap_or(0);
+                acc += memchr::memrchr(n1, hay).unwrap_or(0);
+                acc += memchr::memrchr2(n1, n2, hay).unwrap_or(0);
+                acc += memchr::memrchr3(n1, n2, n3, hay).unwrap_or(0);
+                acc += memchr::memchr_iter(n1, hay).count();
+                let mut it = memchr::memchr_iter(n1, hay);
+                while let (Some(a), b) = (it.next(), it.next_back()) {
+                    acc += a + b.unwrap_or(0);
+                }
+                acc += memchr::memchr2_iter(n1, n2, hay).map(|x| x & 1).sum::<usize>();
+                acc += memchr::memchr3_iter(n1, n2, n3, hay).rev().map(|x| x & 1).sum::<usize>();
+                acc += memchr::memrchr_iter(n2, hay).map(|x| x & 1).sum::<usize>();
+                acc += memchr::arch::all::memchr::One::new(n1).iter(hay).count();
+                acc += memchr::arch::all::memchr::Three::new(n1, n2, n3).iter(hay).map(|x| x & 1).sum::<usize>();
+                #[cfg(feature = "x86")]
+                {
+                    use memchr::arch::x86_64::{avx2::memchr as a, sse2::memchr as s};
+                    acc += s::One::new(n1).map(|f| f.iter(hay).count()).unwrap_or(0);
+                    acc += a::One::new(n1).map(|f| f.iter(hay).count()).unwrap_or(0);
+                    acc += a::Two::new(n1, n2).map(|f| f.iter(hay).rev().map(|x| x & 1).sum::<usize>()).unwrap_or(0);
+                }
+                // substring iterators driven to exhaustion
+                acc += memchr::memmem::find_iter(hay, &[n1, other][..]).map(|x| x & 1).sum::<usize>();
+                acc += memchr::memmem::rfind_iter(hay, &[other, n1][..]).map(|x| x & 1).sum::<usize>();
+                acc += memchr::memmem::find_iter(hay, &[][..]).count();
+                acc
+            });
+            let a1 = crate::alloc::allocs();
+            r.evaluations += 20;
+            if len >= 16 {
+                r.nontrivial += 1;
+            }
+            let problem = match res {
+                Err(msg) => Some(("panic", format!("panicked: {}", msg))),
+                Ok(_) if a1 != a0 => Some(("alloc", format!("made {} heap allocation(s)", a1 - a0))),
+                Ok(_) => None,
+            };
+            if let Some((class, what)) = problem {
+                r.violation(Violation {
+                    class: class.into(),
+                    key: len as u64,
+                    what: format!("[{}] memchr family + iterators on haystack {} (len {}): {}", class, show(&data), len, what),
+                    replay_argv: vec!["memchr-alloc".into()],
+                    detail: json!({"class": class, "haystack": hex(&data)}),
+                });
+            }
+        }
+        r.sample(len as u64, || json!({"haystack_len": len, "calls": "memchr/2/3, memrchr/2/3, Memchr::count, double-ended drain, Memchr2/3 iterators, rev iterators, One/Two/Three iter() of swar/sse2/avx2, find_iter/rfind_iter to exhaustion", "oracle": "allocation counter delta == 0"}));
+    });
+    total.merge(rep);
+    bounds.insert("memchr-alloc".into(), json!({"full_binary_len": [0, lmax], "long_lens": [31, 32, 33, 64, 100, 257, 1000]}));
 }
